@@ -352,6 +352,11 @@ def c14(tier):
                                 r = _guard(f"{tag} fixed_modes={order}", lambda: f(copy.deepcopy(init), n_iter_max=3, fixed_modes=list(order)), fails)
                                 if r is not None and any(not np.array_equal(r.factors[m], init.factors[m]) for m in fm):
                                     fails.append(f"{tag}: fixed_modes={order}: a fixed factor changed")
+                            if name == "parafac":   # accepted line-search jumps extrapolate every factor: a fixed one must come out bit-identical all the same
+                                n += 1
+                                r = _guard(f"{tag} fixed_modes={list(fm)} with line search", lambda: D.parafac(X, rank, init=copy.deepcopy(init), n_iter_max=12, tol=1e-16, linesearch=True, fixed_modes=list(fm)), fails)
+                                if r is not None and any(not np.array_equal(r.factors[m], init.factors[m]) for m in fm):
+                                    fails.append(f"{tag}: fixed_modes={list(fm)} with line search: a fixed factor is not bit-identical to the supplied one")
             rk = [min(rank, s) for s in shape]
             core = rng.standard_normal(rk)
             tf = [np.linalg.qr(rng.standard_normal((s, r_)))[0] for s, r_ in zip(shape, rk)]
@@ -364,6 +369,24 @@ def c14(tier):
                         fails.append(f"{tag}: a fixed factor changed")
                     if r is not None and k == N and not np.array_equal(r.core, core):
                         fails.append(f"{tag}: every factor fixed, but the core changed")
+            # data of another dtype than the initialisation (float32 data, integer-valued float data stored as int64; float64 initialisation): fixed factors stay bit-identical,
+            # a zero budget returns the initialisation's tensor
+            for dname, Xd in (("float32", X.astype(np.float32)), ("int64", np.round(3 * X).astype(np.int64))):
+                fm = list(range(N - 1))
+                n += 2
+                r = _guard(f"tucker {shape} rank {rk} {dname} data, fixed_factors={fm}", lambda: D.tucker(Xd, rk, init=(core.copy(), [g.copy() for g in tf]), fixed_factors=fm, n_iter_max=2), fails)
+                if r is not None and any(not np.array_equal(r.factors[m], tf[m]) for m in fm):
+                    fails.append(f"tucker {shape} rank {rk} {dname} data, float64 initialisation: a fixed factor is not returned as supplied")
+                r = _guard(f"tucker {shape} rank {rk} {dname} data, zero budget", lambda: D.tucker(Xd, rk, init=(core.copy(), [g.copy() for g in tf]), n_iter_max=0), fails)
+                if r is not None and not close(np.asarray(tucker_to_tensor(r), dtype=float), tucker_to_tensor((core, tf)), 1e-5):
+                    fails.append(f"tucker {shape} rank {rk} {dname} data, float64 initialisation: a zero budget changes the represented tensor")
+                if dname == "float32":
+                    Xpd = Xp.astype(np.float32)
+                    acd, afd = np.abs(core), [np.abs(g) for g in tf]
+                    n += 1
+                    r = _guard(f"non_negative_tucker_hals {shape} rank {rk} float32 data, fixed_modes={fm}", lambda: D.non_negative_tucker_hals(Xpd, rk, init=(acd.copy(), [g.copy() for g in afd]), n_iter_max=2, fixed_modes=fm), fails)
+                    if r is not None and any(not np.array_equal(r.factors[m], afd[m]) for m in fm):
+                        fails.append(f"non_negative_tucker_hals {shape} rank {rk} float32 data, float64 initialisation: a fixed factor is not returned as supplied")
             n += 1
             r = _guard(f"tucker {shape} rank {rk} zero budget", lambda: D.tucker(X, rk, init=(core.copy(), [g.copy() for g in tf]), n_iter_max=0), fails)
             if r is not None and not close(tucker_to_tensor(r), tucker_to_tensor((core, tf))):
@@ -556,6 +579,12 @@ def c19(tier):
                         chk(f"PLSR permutation: scores {base}", r.X_factors[0], p.X_factors[0][perm], 1e-6)
                         for m in range(1, len(p.X_factors)): chk(f"PLSR permutation: X loading {m} {base}", r.X_factors[m], p.X_factors[m], 1e-6)
                         chk(f"PLSR permutation: predictions {base}", r.predict(X[perm]), pred[perm], 1e-6)
+                        # the same data in units nine orders of magnitude smaller: loadings are scale-free
+                        t = CP_PLSR(nc); t.fit(X * 1e-9, Y * 1e-9)
+                        for m, F in enumerate(t.X_factors[1:], 1):
+                            chk(f"PLSR X loading {m} unit norm, data scaled by 1e-9 {base}", np.linalg.norm(F, axis=0), np.ones(nc), 1e-8)
+                        for m, F in enumerate(t.Y_factors[1:], 1):
+                            chk(f"PLSR Y loading {m} unit norm, data scaled by 1e-9 {base}", np.linalg.norm(F, axis=0), np.ones(nc), 1e-8)
                     except Exception as e:
                         fails.append(f"CP_PLSR {base}: raises {type(e).__name__}: {str(e)[:80]}")
 
